@@ -32,6 +32,17 @@ CHECKS = {
             'right strength.',
             'Trusted: ref/dispatch.py and ref/match.py; behaviours outside the six catalogue behaviours are not explored.',
             'DESIGN.md section 5, C06'),
+    'C07': ('E1-product-enumerator',
+            'bounded-exhaustive enumeration of route/mode configurations x request catalogue on the real WSGI callable, '
+            'each redirect followed one hop',
+            'Complete product of 4 route shapes x branch/leaf x 3 slash modes x 4 ways of configuring the mode '
+            '(application, route, inherited through embedding, not inherited) x 2 method sets, crossed with decoded '
+            'segments containing URL-significant characters, 7 slash defects, 6 query strings and all 9 HTTP methods; '
+            'every redirect is checked (origin, unquoted path, query pairs) and followed once. The property is a '
+            'per-request input/output relation, so complete small catalogues are the right strength.',
+            'Trusted: ref/dispatch.py, ref/match.py, urllib.parse; werkzeug strips leading repeated slashes before '
+            'clastic sees the path (modelled).',
+            'DESIGN.md section 5, C07'),
 }
 
 NOT_YET = 'check not built yet in this revision of /verif (planned: bounded exhaustive exploration, see DESIGN.md section 5)'
